@@ -74,21 +74,33 @@ theorem repair_eq_model (n : Node) (fl : Fields (toTreeO n.left)) (fr : Fields (
   have e2 : Rs.iabs 64 (hOf n.left - hOf n.right) =
       ok (if hOf n.left - hOf n.right < 0 then -(hOf n.left - hOf n.right) else hOf n.left - hOf n.right) :=
     Rs.iabs_ok (inS64 (by split <;> omega) (by split <;> omega))
+  -- the same difference with the operands exchanged (`(right_h - left_h).abs()`)
+  have e1' : Rs.isub 64 (hOf n.right) (hOf n.left) = ok (hOf n.right - hOf n.left) :=
+    Rs.isub_ok (inS64 (by omega) (by omega))
+  have e2' : Rs.iabs 64 (hOf n.right - hOf n.left) =
+      ok (if hOf n.right - hOf n.left < 0 then -(hOf n.right - hOf n.left) else hOf n.right - hOf n.left) :=
+    Rs.iabs_ok (inS64 (by split <;> omega) (by split <;> omega))
   rw [toTree_eq n]
   obtain ⟨iv, v, mx, h, l, r⟩ := n
-  simp only at fl fr hsz hl hr sl sr e1 e2 ⊢
-  simp only [SrcAvl.repair, e1, e2, Res.ok_bind]
+  simp only at fl fr hsz hl hr sl sr e1 e2 e1' e2' ⊢
+  simp only [SrcAvl.repair, e1, e2, e1', e2', Res.ok_bind]
   by_cases hbal : ht (toTreeO l) ≤ ht (toTreeO r) + 1 ∧ ht (toTreeO r) ≤ ht (toTreeO l) + 1
   · -- balanced: `update_height(); update_max()`
     have c1 : (if hOf l - hOf r < 0 then -(hOf l - hOf r) else hOf l - hOf r) ≤ 1 := by split <;> omega
+    have c1a : (if hOf l - hOf r < 0 then -(hOf l - hOf r) else hOf l - hOf r) < 2 := by split <;> omega
+    have c1b : (if hOf r - hOf l < 0 then -(hOf r - hOf l) else hOf r - hOf l) ≤ 1 := by split <;> omega
+    have c1c : (if hOf r - hOf l < 0 then -(hOf r - hOf l) else hOf r - hOf l) < 2 := by split <;> omega
     have hB : ((2 : Int) ^ 60) + 1 < 2 ^ 63 := by decide
     have u := updates_eq ⟨iv, v, mx, h, l, r⟩ (2 ^ 60) hB (by hr_tac) (by hr_tac)
     simp only [bind, Res.bind] at u
-    simp only [if_pos c1, bind, Res.bind, u]
+    simp only [if_pos c1, if_pos c1a, if_pos c1b, if_pos c1c, bind, Res.bind, u]
     refine ⟨_, rfl, ?_⟩
     rw [toTree_mkN _ _ _ _ (by omega) (by omega)]
     simp [Avl.repair, hbal, entryOf]
   · have c1 : ¬ (if hOf l - hOf r < 0 then -(hOf l - hOf r) else hOf l - hOf r) ≤ 1 := by split <;> omega
+    have c1a : ¬ (if hOf l - hOf r < 0 then -(hOf l - hOf r) else hOf l - hOf r) < 2 := by split <;> omega
+    have c1b : ¬ (if hOf r - hOf l < 0 then -(hOf r - hOf l) else hOf r - hOf l) ≤ 1 := by split <;> omega
+    have c1c : ¬ (if hOf r - hOf l < 0 then -(hOf r - hOf l) else hOf r - hOf l) < 2 := by split <;> omega
     have hB : ((2 : Int) ^ 60) + 2 < 2 ^ 63 := by decide
     have hB1 : ((2 : Int) ^ 60 + 1) + 2 < 2 ^ 63 := by decide
     have hL : HR (2 ^ 60) l := fields_hr l _ fl (by omega)
@@ -124,7 +136,7 @@ theorem repair_eq_model (n : Node) (fl : Fields (toTreeO n.left)) (fr : Fields (
             have q2 := rotateLeft_eq ⟨iv, v, mx, h, l, some (mkN a.left a.interval a.value
               (some (mkN a.right rn.interval rn.value rn.right)))⟩ _ (2 ^ 60 + 1) hB1 rfl hL1 hAL1
               (by have := hAR.1; have := hAR.2; have := hRR.1; have := hRR.2; simp only [mkN]; hr_tac)
-            simp only [if_neg c1, if_pos c2, Rs.expect, if_pos c3, q1, q2, Res.ok_bind, pure_bind, Res.pure_eq_ok]
+            simp only [if_neg c1, if_neg c1a, if_neg c1b, if_neg c1c, if_pos c2, Rs.expect, if_pos c3, q1, q2, Res.ok_bind, pure_bind, Res.pure_eq_ok]
             refine ⟨_, rfl, ?_⟩
             have t1 := toTree_mkN l iv v a.left hL.1 hAL.1
             have t2 := toTree_mkN a.right rn.interval rn.value rn.right hAR.1 hRR.1
@@ -141,7 +153,7 @@ theorem repair_eq_model (n : Node) (fl : Fields (toTreeO n.left)) (fr : Fields (
             simp [entryOf]
         · have c3 : ¬ hOf rn.left > hOf rn.right := by omega
           have q2 := rotateLeft_eq ⟨iv, v, mx, h, l, some rn⟩ rn (2 ^ 60) hB rfl hL hRL hRR
-          simp only [if_neg c1, if_pos c2, Rs.expect, if_neg c3, q2, Res.ok_bind, pure_bind, Res.pure_eq_ok]
+          simp only [if_neg c1, if_neg c1a, if_neg c1b, if_neg c1c, if_pos c2, Rs.expect, if_neg c3, q2, Res.ok_bind, pure_bind, Res.pure_eq_ok]
           refine ⟨_, rfl, ?_⟩
           have t1 := toTree_mkN l iv v rn.left hL.1 hRL.1
           have t3 := toTree_mkN (some (mkN l iv v rn.left)) rn.interval rn.value rn.right
@@ -179,7 +191,7 @@ theorem repair_eq_model (n : Node) (fl : Fields (toTreeO n.left)) (fr : Fields (
             have q2 := rotateRight_eq ⟨iv, v, mx, h, some (mkN (some (mkN ln.left ln.interval ln.value a.left))
               a.interval a.value a.right), r⟩ _ (2 ^ 60 + 1) hB1 rfl
               (by have := hLL.1; have := hLL.2; have := hAL.1; have := hAL.2; simp only [mkN]; hr_tac) hAR1 hR1
-            simp only [if_neg c1, if_neg c2, Rs.expect, if_pos c3, q1, q2, Res.ok_bind, pure_bind, Res.pure_eq_ok]
+            simp only [if_neg c1, if_neg c1a, if_neg c1b, if_neg c1c, if_neg c2, Rs.expect, if_pos c3, q1, q2, Res.ok_bind, pure_bind, Res.pure_eq_ok]
             refine ⟨_, rfl, ?_⟩
             have t1 := toTree_mkN ln.left ln.interval ln.value a.left hLL.1 hAL.1
             have t2 := toTree_mkN a.right iv v r hAR.1 hR.1
@@ -196,7 +208,7 @@ theorem repair_eq_model (n : Node) (fl : Fields (toTreeO n.left)) (fr : Fields (
             simp [entryOf]
         · have c3 : ¬ hOf ln.right > hOf ln.left := by omega
           have q2 := rotateRight_eq ⟨iv, v, mx, h, some ln, r⟩ ln (2 ^ 60) hB rfl hLL hLR hR
-          simp only [if_neg c1, if_neg c2, Rs.expect, if_neg c3, q2, Res.ok_bind, pure_bind, Res.pure_eq_ok]
+          simp only [if_neg c1, if_neg c1a, if_neg c1b, if_neg c1c, if_neg c2, Rs.expect, if_neg c3, q2, Res.ok_bind, pure_bind, Res.pure_eq_ok]
           refine ⟨_, rfl, ?_⟩
           have t1 := toTree_mkN ln.right iv v r hLR.1 hR.1
           have t3 := toTree_mkN ln.left ln.interval ln.value (some (mkN ln.right iv v r)) hLL.1
